@@ -634,6 +634,12 @@ impl crate::verif::vx::bfs::Model for SeqModel {
                 cur.push((format!("C18/seq/adj-rib-in-post/{kind}"), format!("after {name}: the subscriber's post-policy view {:?} differs from the RIB's {:?}; events of this step: {}", sys.post.keys().collect::<Vec<_>>(), post.keys().collect::<Vec<_>>(), f.join(","))));
             }
         }
+        // the subscriber list holds exactly the live subscriptions (a leaked sender is fed every event for ever)
+        let want_subs = sys.sub.is_some() as usize;
+        let got_subs = sys.tables.bmp_senders().len();
+        if got_subs != want_subs {
+            cur.push((format!("C18/seq/subscriber-list/{}", if got_subs > want_subs { "leaked" } else { "lost" }), format!("after {name}: {got_subs} senders are registered, {want_subs} subscription(s) are alive")));
+        }
         let mut now = BTreeSet::new();
         for (sig, what) in cur {
             let clause = sig.split('/').nth(2).unwrap_or("").to_string();
@@ -651,7 +657,7 @@ impl crate::verif::vx::bfs::Model for SeqModel {
     fn fingerprint(&self, sys: &SeqSys) -> Vec<u8> {
         let (pre, post) = rib(&sys.tables);
         let filtered: Vec<String> = sys.tables.collect_paths(table::TableQuery::Global, Family::IPV4, vec![], true).iter().map(|d| format!("{}:{:?}", d.net, d.paths.iter().map(|p| (p.source.remote_addr, p.filtered)).collect::<Vec<_>>())).collect();
-        format!("{:?}|{:?}|{:?}|{}|{:?}|{:?}|{}|{}|{}|{:?}|{:?}", pre, post, filtered, sys.sub.is_some(), sys.pre, sys.post, sys.policy_on, sys.deferring, sys.ever_deferred, (sys.b_gen, sys.b_up, sys.b_stale, sys.b_llgr, sys.nh_down, stale_fp(&sys.tables)), sys.broken).into_bytes()
+        format!("{:?}|{:?}|{:?}|{}|{:?}|{:?}|{}|{}|{}|{:?}|{:?}", pre, post, filtered, sys.sub.is_some(), sys.pre, sys.post, sys.policy_on, sys.deferring, sys.ever_deferred, (sys.b_gen, sys.b_up, sys.b_stale, sys.b_llgr, sys.nh_down, stale_fp(&sys.tables), sys.tables.bmp_senders().len()), sys.broken).into_bytes()
     }
 }
 
